@@ -512,6 +512,14 @@ func (o *nonceOracle) State(c *explore.Ctx, w *world.World) {
 func (o *nonceOracle) Leg(c *explore.Ctx, leg *world.Leg) {
 	p := o.property
 	in := leg.Input
+	if leg.Side == "dest" && leg.Delivered != nil && !leg.Duplicate && !leg.OK() {
+		if fn, _, _ := spec.SplitData(leg.Delivered.Data); fn == vmcommon.BuiltInFunctionESDTNFTCreateRoleTransfer || bytes.HasPrefix(leg.Delivered.Data, []byte(vmcommon.BuiltInFunctionESDTNFTCreateRoleTransfer+"@")) {
+			c.Report(p, "handover", "delivery-refused", fmt.Sprintf("the hand-over message %s was not accepted by the new holder's shard (%v): the create role and the counter are lost", shortData(leg.Delivered.Data), leg.Err))
+		}
+	}
+	if in == nil {
+		return
+	}
 	if leg.OK() && leg.Func == vmcommon.BuiltInFunctionESDTNFTCreate && len(in.Arguments) > 1 {
 		tok := string(in.Arguments[0])
 		want := leg.Pre.Ghost.Highest[tok] + 1
@@ -567,6 +575,12 @@ func (o *nonceOracle) Leg(c *explore.Ctx, leg *world.Leg) {
 				c.Class("handover-cross-shard")
 			}
 		} else if leg.Side == "dest" {
+			// second half: the new holder now has the role and continues after the highest nonce
+			nh := leg.Post.Get(in.RecipientAddr)
+			if !spec.HasRole(nh, tok, vmcommon.ESDTRoleNFTCreate) || spec.Counter(nh, tok) != leg.Pre.Ghost.Highest[tok] {
+				c.Report(p, "handover", "new-holder-after-delivery", fmt.Sprintf("after the delivery of the hand-over of %q the new holder %s has role=%v counter=%d, highest issued %d", tok, uni.Name(in.RecipientAddr),
+					spec.HasRole(nh, tok, vmcommon.ESDTRoleNFTCreate), spec.Counter(nh, tok), leg.Pre.Ghost.Highest[tok]))
+			}
 			if leg.Duplicate {
 				c.Class("handover-delivered-twice")
 			} else {
